@@ -53,10 +53,19 @@ def status():
         out.append(f"| {pid} | {len(th)} ({k('full')} / {k('partial')} / {k('witness')}) | {esc(props[pid].get('partial') or 'nothing: every clause is a theorem over the model; model = code is the correspondence run')[:700]} | {', '.join(opn)} |")
     return "\n".join(out)
 
+def trusted():
+    props = json.load(open(os.path.join(R, "lean", "props.json")))
+    out = ["| property | modelled rather than verified / assumed (besides the Lean kernel, the three standard axioms and the correspondence run) | domain assumptions |", "|---|---|---|"]
+    for pid in sorted(props):
+        tb = "; ".join(props[pid].get("trusted_base") or []) or "—"
+        asm = "; ".join(props[pid].get("assumptions") or []) or "—"
+        out.append(f"| {pid} | {esc(tb)[:900]} | {esc(asm)[:500]} |")
+    return "\n".join(out)
+
 def main():
     p = os.path.join(R, "DESIGN.md")
     s = open(p).read()
-    for name, fn in (("findings", findings), ("seeded", seeded), ("status", status)):
+    for name, fn in (("findings", findings), ("seeded", seeded), ("status", status), ("trusted", trusted)):
         pat = re.compile(rf"(<!-- GEN:{name} -->\n).*?(<!-- /GEN:{name} -->)", re.S)
         if pat.search(s):
             s = pat.sub(lambda m: m.group(1) + fn() + "\n" + m.group(2), s)
